@@ -248,7 +248,7 @@ func findingSrc(min string) string {
 
 func run(c *hx.Ctx) error {
 	res := c.Res
-	res.Rule = "generated function bodies of 3–12 declarations/assignments over the 15 basic types (base programs, ≈70% accepted by go/types) and one single-point mutant of each (20 mutation kinds: other identifier, wrap/drop conversion, swap operator, boundary constant, typed literal, shift-count kind, nil, random subexpression, undefined name, delete/duplicate/swap statement, changed declared type, :=/=, var/const, assign to other name, forced comparison, dropped operator, unused variable); systematic programs (every ordered pair of basic types under an operator of each class with variable/constant/untyped operands; every integer type at min-1, min, max, max+1 in 9 contexts; 19 count kinds × 9 shifted operands); a declaration/use stream (multi-name := with partial redeclaration, multi-value calls, assigned-never-read, closures, shadowing, if/for/switch init, blank identifier, labels, imports) and a terminating-statement stream (functions with results ending in every statement form of the specification's list, half of them terminating by construction with a break/continue injected at some depth; skeleton also judged by the Lean terminating predicate); small streams outside the model judged by Build-vs-go/types only (complex/interface operands, non-constant shifts of untyped constants, package-level declarations, imports); a case is non-trivial when it has at least one operator or conversion; distinct by source text"
+	res.Rule = "generated function bodies of 3–12 declarations/assignments over the 15 basic types (base programs, ≈70% accepted by go/types) and one single-point mutant of each (20 mutation kinds: other identifier, wrap/drop conversion, swap operator, boundary constant, typed literal, shift-count kind, nil, random subexpression, undefined name, delete/duplicate/swap statement, changed declared type, :=/=, var/const, assign to other name, forced comparison, dropped operator, unused variable); systematic programs (every ordered pair of basic types under an operator of each class with variable/constant/untyped operands; every integer type at min-1, min, max, max+1 in 9 contexts; 19 count kinds × 9 shifted operands); a declaration/use stream (multi-name := with partial redeclaration, multi-value calls, assigned-never-read, closures, shadowing, if/for/switch init, blank identifier, labels, imports) and a terminating-statement stream (functions with results ending in every statement form of the specification's list, half of them terminating by construction with a break/continue injected at some depth; skeleton also judged by the Lean terminating predicate); small streams outside the model judged by Build-vs-go/types only (complex/interface operands, non-constant shifts of untyped constants, package-level declarations, imports); an assignability/convertibility matrix (assign_matrix.go: 71 pool types incl. interfaces with methods and native types implementing them × 203 values incl. non-constant untyped booleans and shifts × 55 contexts, systematic — all cells at the thorough tier; every untyped value in every context, typed values in three rotating contexts and the neighbourhood of every finding class at the quick tier — plus random programs with nested values; finding classes predicted from cell coordinates and go/types' verdict, precision measured per run); a case is non-trivial when it has at least one operator or conversion; distinct by source text"
 
 	if c.Replay != "" {
 		return replay(c)
@@ -256,7 +256,7 @@ func run(c *hx.Ctx) error {
 
 	if os.Getenv("C03_ONLY") == "matrix" { // debugging aid: the assignability matrix alone
 		runMatrix(c)
-		return nil
+		return validateAssignableModel(c)
 	}
 
 	// 0. recorded findings: replay the exact minimal programs on the real code
@@ -458,7 +458,7 @@ func run(c *hx.Ctx) error {
 		compareModel(c, tc)
 	}
 	runMatrix(c)
-	return nil
+	return validateAssignableModel(c)
 }
 
 // replay re-runs the case of a replay file: the recorded source on Build and go/types, and the
